@@ -2,19 +2,64 @@
 //
 // TIME is the CPU time (user+system, getrusage in the child around the one case, with the
 // collection of the case's garbage and the kernel's page zeroing included) — not wall time.
-// The 10 s wall watchdog remains only as the kill switch; a watchdog kill counts only when the
-// isolated re-run also burnt the CPU budget (CPU time of the killed child from /proc/<pid>/stat).
+// The 10 s wall watchdog remains only as the kill switch: in a C09 run it does not even fire before
+// the case has had its CPU budget (or 30 s of wall time), and a kill counts only when the isolated
+// re-run burnt the CPU budget again (CPU time of the killed child from /proc/<pid>/stat).
 // MEMORY is the sampled peak heap growth during the case.
 //
-//	cpu_budget(S, len)  = cpuA  + cpuB*S  + cpuC*len      (microseconds)
-//	heap_budget(S, len) = memM0 + memM1*S + memM2*len     (bytes)
+//	cpu_budget(S, len)  = a  + b*S  + c*len      (microseconds)
+//	heap_budget(S, len) = m0 + m1*S + m2*len     (bytes)
 //
-// S = width*height*components of the first frame header (0 when none is declared), len = input
-// length. Tile / precinct / layer / resolution COUNTS are deliberately not part of S: work spent on
-// declared counts must be paid for by data that is actually there (len).
+// S = width*height*components of the first frame header (0 when none is declared; codec[RLE]: of
+// the FrameInfo), len = input length. Tile / precinct / layer / resolution COUNTS are deliberately
+// not part of S: work spent on declared counts must be paid for by data that is there (len).
+// One coefficient set per decoder group (the entry points of a group share the decoder).
 //
-// Calibration (see calibNote): thorough-tier corpus + mutants on the clean tree, budgets off,
-// 16 children in parallel on a loaded machine; upper envelope per entry point and S-decade.
+// Calibration, 2026-09-23, clean tree (git archive of HEAD cf93e3d), budgets off:
+// the thorough-tier corpus + mutants (1 080 092 executed cases, 16 children in parallel), then
+// every case with > 50 ms CPU or > 4 MiB peak (11 661, then 18 340 with the duplicates of their
+// classes) measured again with little contention (2 children, and 4 children on the idle machine,
+// watchdog 120 s). CPU time measured with 16 children in parallel is inflated up to 17x by
+// contention in the kernel's page allocator even on an otherwise idle machine (a case of 72 ms
+// measured 1237 ms), so the envelope below is the low-contention one; the parallel run only
+// screens, and every candidate is decided by the isolated re-run. Peak heap is taken over all runs.
+//
+// Upper envelope, worst clean case per S-decade (CPU ms / peak KiB); "none" = nothing declared:
+//
+//	group   none     1e0     1e1      1e2      1e3       1e4          1e5        1e6
+//	dct     3/2503   1/86    6/131    1/214    0/111     0/559        13/2071    53/8286
+//	jpegll  0/202    0/79    5/129    3/262    0/171     11/1188      5/6912     643/32819
+//	jls     1/102    3/217   0/292    3/316    1/128     2/1248       45/7744    1035/32867
+//	rle     0/15     0/22    0/126    0/200    0/15      0/256        0/1728     6/16399
+//	j2k     3/172    0/231   12/2735  78/3659  181/17851 2112/174087  107/32102  12088/610379
+//	(j2k 1e4: Csiz 16384 on 2x2, len 49-51 KiB; j2k 1e6: 12088 ms at S = 2^22 and 10636 ms at S = 3*2^20)
+//
+// worst per entry point (all at S ~ 2^22 unless noted): baseline 48 ms/4626 KiB, extended 42/8200,
+// codec[.50] 13/4623, codec[.51] 53/8286, lossless 643/32795, lossless14sv1 263/32791,
+// codec[.57] 551/32819, codec[.70] 398/32792, jpegls/lossless 965/32843, jpegls/nearlossless
+// 524/32867, codec[.80] 590/32846, codec[.81] 1035/32823, codec[RLE] 6/16399, jpeg2000.Decoder
+// 10547/610379, +HT 9219/604122, codec[.90] 7747/565059, [.91] 5453/528496, [.92] 2039/239772,
+// [.93] 55/40353, [.201] 11120/563153, [.202] 321/125385, [.203] 12088/567426 (the 1x1-precinct
+// 2048x2048 tile: 4 M precincts), and at S = 65536 with Csiz 16384: 2112 ms / 174087 KiB.
+//
+// Coefficients: >= 5x the envelope in CPU and >= 3x in memory in every bucket. a = 1 s (the worst
+// clean case below S = 10^4 is 181 ms; 1 s also keeps the contention noise of the parallel screening
+// run, up to 0.56 s on trivial cases, below the candidate threshold), m0 = 16 MiB (worst clean
+// small-S case 3659 KiB).
+//
+//	group   a      b µs/sample  c µs/byte   m0      m1 B/sample  m2 B/byte   at S=2^22, len=1 KiB
+//	dct     1 s    0.1          5           16 MiB  6            64          1.4 s    40 MiB
+//	jpegll  1 s    0.75         5           16 MiB  24           64          4.2 s   112 MiB
+//	jls     1 s    1.25         5           16 MiB  24           64          6.2 s   112 MiB
+//	rle     1 s    0.1          5           16 MiB  10           64          1.4 s    56 MiB
+//	j2k     1 s    17           170         16 MiB  450          9600        72 s    1.8 GiB
+//
+// (j2k: b from 10636 ms at S = 3*2^20 and 12088 ms at S = 2^22; c and m2 from the Csiz-16384 streams — 3 header bytes per
+// component buy 130 µs and 10 KiB of per-component state; m1 from 610379 KiB at S = 2^22.)
+//
+// Not in the envelope because it is a violation on the clean tree itself (reported as a finding):
+// work.po0.layers1000-levels8-bigimage.filler — LRCP, 1000 layers, 2048x2048, 2 KiB of filler:
+// > 13 s CPU, then fatal out of memory under RLIMIT_AS 3 GiB in t2.parsePacketHeaderMulti.
 package parsers
 
 import (
@@ -31,22 +76,42 @@ type coef struct {
 	memM1, memM2     float64 // bytes per declared sample, bytes per input byte
 }
 
+const (
+	grpDCT    = "dct"
+	grpJPEGLL = "jpegll"
+)
+
 var budgets = map[string]coef{
-	famJPEG: {1e6, 1, 10, 16 << 20, 24, 64},
-	famJLS:  {1e6, 1, 10, 16 << 20, 24, 64},
-	famRLE:  {1e6, 1, 10, 16 << 20, 24, 64},
-	famJ2K:  {1e6, 16, 170, 16 << 20, 450, 9600},
+	grpDCT:    {1e6, 0.1, 5, 16 << 20, 6, 64},
+	grpJPEGLL: {1e6, 0.75, 5, 16 << 20, 24, 64},
+	famJLS:    {1e6, 1.25, 5, 16 << 20, 24, 64},
+	famRLE:    {1e6, 0.1, 5, 16 << 20, 10, 64},
+	famJ2K:    {1e6, 17, 170, 16 << 20, 450, 9600},
 }
 
 // calibNote goes into the Rule text of C09.
-const calibNote = "calibration pending"
+const calibNote = "Budgets (calibrated 2026-09-23 on the clean tree, thorough corpus, 1.08 M cases; heavy cases re-measured with little contention): " +
+	"cpu_budget = a + b*S + c*len, heap_budget = m0 + m1*S + m2*len with a = 1 s, m0 = 16 MiB and per decoder group (b µs/sample, c µs/byte, m1 B/sample, m2 B/byte): " +
+	"dct [baseline, extended, .50, .51] (0.1, 5, 6, 64); jpegll [lossless, lossless14sv1, .57, .70] (0.75, 5, 24, 64); jls (1.25, 5, 24, 64); rle (0.1, 5, 10, 64); " +
+	"j2k (17, 170, 450, 9600). Measured clean envelope (worst CPU ms / peak KiB): S < 10^4: dct 6/2503, jpegll 5/262, jls 3/316, rle 0/200, j2k 181/17851; " +
+	"S ~ 2^22: dct 53/8286, jpegll 643/32819, jls 1035/32867, rle 6/16399, j2k 12088/610379 (1x1 precincts on a 2048x2048 tile; 10636 ms at S = 3*2^20); j2k at S = 65536 with Csiz 16384 (len 50 KiB): 2112/174087. " +
+	"Headroom >= 5x CPU and >= 3x memory in every S-decade. "
 
-func coefOf(entry string) coef {
-	if e := entryByName[entry]; e != nil {
-		return budgets[e.Fam]
+func groupOf(entry string) string {
+	switch entry {
+	case "baseline.Decode", "extended.Decode", "codec[.50].Decode", "codec[.51].Decode":
+		return grpDCT
 	}
-	return budgets[famJ2K]
+	if e := entryByName[entry]; e != nil {
+		if e.Fam == famJPEG {
+			return grpJPEGLL
+		}
+		return e.Fam
+	}
+	return famJ2K
 }
+
+func coefOf(entry string) coef { return budgets[groupOf(entry)] }
 
 func cpuBudgetUs(c *Case, s uint64) int64 {
 	k := coefOf(c.Entry)
